@@ -218,6 +218,8 @@ type World struct {
 	panicSeen map[string]bool
 	nowhereNode *Node
 	parkedSeen map[int]int
+	Byz      map[int]bool
+	seenDelivery map[Hash]bool
 	Ops      int
 	taskPanicReported map[int]bool
 	stuck    []*opHandle
